@@ -145,6 +145,11 @@ pub enum Op {
     ArcDecStrong { r: u8 },
     /// give one handle to thread t through a harness slot (t takes it at its `ArcTake`)
     ArcGive { r: u8, t: u8 },
+    /// hand all of this thread's handles of arc r back (like returning them from the thread's
+    /// closure); whoever joins the thread may pick them up with `ArcCollect`
+    ArcReturn { r: u8 },
+    /// take the handles returned by finished threads (only meaningful after joining them)
+    ArcCollect { r: u8 },
     // ---- leak tracking ----
     TrackNew { k: u8 },
     TrackDrop { k: u8 },
@@ -281,6 +286,8 @@ impl fmt::Display for Op {
             ArcIncStrong { r } => write!(f, "arc_inc(r{})", r),
             ArcDecStrong { r } => write!(f, "arc_dec(r{})", r),
             ArcGive { r, t } => write!(f, "arc_give(r{},T{})", r, t),
+            ArcReturn { r } => write!(f, "arc_return(r{})", r),
+            ArcCollect { r } => write!(f, "arc_collect(r{})", r),
             TrackNew { k } => write!(f, "track_new(k{})", k),
             TrackDrop { k } => write!(f, "track_drop(k{})", k),
             Alloc { k } => write!(f, "alloc(b{})", k),
